@@ -36,7 +36,7 @@ SPEC = dict(
                  "(they join the handler thread); ids of a previous incarnation are not reused after reset()",
                  "TimingWheel delays stay inside the wheel range tick*ticksPerWheel^numWheels (the in-tree caller clamps to it)",
                  "a timer that is still missing after the same service fired 8 probe timers scheduled later (or whose service "
-                 "does not fire a 0-delay probe within 15 s) is lost; such failures must reproduce 3/3 before they count"],
+                 "does not fire a 0-delay probe within 30 s) is lost; such failures must reproduce 3/3 before they count"],
     units=[
         pbt("c08_timers", "harness/c08_timers.cpp", dict(
             svc=P(300, 8000, 8, 16, q_secs=45, t_secs=800, extra=["--shrink-seconds", "20"]),
